@@ -127,6 +127,7 @@ type Exec struct {
 	loopCount []int // stack for loop ordinal paths
 	specDefs map[string]bool // spec functions already defined in D
 	modelVars []string
+	entryAlloc *Term // allocation pointer at function entry
 	// byte-slice parameters at function entry (for projecting a model onto inputs)
 	modelSlices []modelSlice
 	curHookProps []string
